@@ -100,6 +100,7 @@ def float_sites(F, fn):
 def run(ctx, R):
     F = ctx.facts()
     R.rule("RF3 classify-before-return; RF10 classify_float; RF9 guard table; RF1 operand order of Number/Number")
+    zero_sign(F, R)
     fns = sorted(p for p, it in F.items.items() if it["kind"] in ("Fn", "AssocFn")
                  and (p.startswith("machine::arithmetic_ops::") or p.startswith("arithmetic::") or
                       (it.get("self_ty") == "forms::Number" and it["file"].endswith("arithmetic.rs")))
@@ -216,3 +217,23 @@ def run(ctx, R):
     dv = F.find_impl("Number", "std::ops::Div", "div")
     cnt = repo.operand_order_obligations(F, dv, R, "C02:operand-order:Number::div")
     R.floor("Number::div ordered operand sites", cnt, 16)
+
+
+def zero_sign(F, R):
+    """A float is stored as an offset into a table that holds each value once; the table is keyed by OrderedFloat, whose
+    equality and hash make -0.0 and +0.0 the same key. Whichever zero is stored first is then the value of every later
+    zero of either sign, so the result of atan2(Y, -1.0), 1/.. etc. with a zero Y bound earlier depends on the history
+    of the process. The table must key by bit pattern, or give the zero a fixed sign before the lookup."""
+    bw = [p for p, it in F.items.items() if p.endswith("offset_table::F64Table::build_with")]
+    if len(bw) != 1:
+        raise AnchorLost("F64Table::build_with (%d)" % len(bw))
+    body = F.hir(bw[0])["body"]
+    gets = [x for x in walk(body) if x["k"] == "MethodCall" and x["name"] == "get" and "IndexMap" in (x.get("inst") or x.get("callee") or "")]
+    if not gets:
+        raise AnchorLost("F64Table::build_with: lookup in the value table not found")
+    keyed_by_ordered_float = all("OrderedFloat" in (x.get("inst") or "") for x in gets)
+    sign_aware = any((x["k"] == "MethodCall" and x["name"] in ("to_bits", "is_sign_negative", "is_sign_positive", "copysign", "abs"))
+                     or (x["k"] == "Lit" and str((x.get("lit") or {}).get("float", "")).strip("-").startswith("0")) for x in walk(body))
+    R.ob("C02:float-intern:zero-sign-is-history-independent", (not keyed_by_ordered_float) or sign_aware,
+         "F64Table::build_with looks a float up by OrderedFloat equality, which identifies -0.0 and +0.0, and stores whichever comes first: "
+         "X is -1.0e-300 / 1.0e300, A is 1.0 - 1.0, Y is atan2(A, -1.0) gives Y = -pi, the same goals without the first give Y = +pi", F.where(bw[0]))
